@@ -273,6 +273,10 @@ def doctypes(root: str, canary_uri: str, http_uri: str = "http://127.0.0.1:9/x")
         "param-empty": f'<!DOCTYPE {root} [<!ENTITY % p "">]>',
         "param-ext-empty-sysid": f'<!DOCTYPE {root} [<!ENTITY % p SYSTEM "">]>',
         "public-empty-ids": f'<!DOCTYPE {root} [<!ENTITY x PUBLIC "" "">]>',
+        # a harmless-looking first declaration (the non-breaking-space idiom) followed by what matters
+        "nbsp-then-bomb": f'<!DOCTYPE {root} [<!ENTITY nbsp "&#160;">{bomb.replace("e0;", "nbsp;")}<!ENTITY e0 "aaaaaaaaaa">]>',
+        "nbsp-then-external": f'<!DOCTYPE {root} [<!ENTITY nbsp "&#160;"><!ENTITY x SYSTEM "{canary_uri}">]>',
+        "char-then-parameter": f'<!DOCTYPE {root} [<!ENTITY c "c"><!ENTITY % p SYSTEM "{canary_uri}"> %p;]>',
         "ext-dtd-file": f'<!DOCTYPE {root} SYSTEM "{canary_uri}">',
         "ext-dtd-http": f'<!DOCTYPE {root} SYSTEM "{http_uri}">',
         "doctype-only": f"<!DOCTYPE {root}>",
@@ -283,8 +287,9 @@ def doctypes(root: str, canary_uri: str, http_uri: str = "http://127.0.0.1:9/x")
 
 
 ENTITY_CLASSES = ["internal-used", "internal-unused", "bomb", "wide-bomb", "ext-general-file", "ext-general-http", "ext-parameter", "unparsed", "public-ext",
-                  "internal-empty", "ext-empty-sysid", "param-empty", "param-ext-empty-sysid", "public-empty-ids"]
-ENTITY_REF = {"internal-used": "&a;", "internal-empty": "&a;", "bomb": "&e8;", "wide-bomb": "&big;" * 48, "ext-general-file": "&x;", "ext-general-http": "&x;", "public-ext": "&x;"}
+                  "internal-empty", "ext-empty-sysid", "param-empty", "param-ext-empty-sysid", "public-empty-ids",
+                  "nbsp-then-bomb", "nbsp-then-external", "char-then-parameter"]
+ENTITY_REF = {"internal-used": "&a;", "internal-empty": "&a;", "nbsp-then-bomb": "&e8;", "nbsp-then-external": "&x;", "bomb": "&e8;", "wide-bomb": "&big;" * 48, "ext-general-file": "&x;", "ext-general-http": "&x;", "public-ext": "&x;"}
 LEADS = ["", "<!-- exported by a tool -->\n", '<?xml-stylesheet type="text/xsl" href="s.xsl"?>\n', "\n\n   \n", "<!-- a --><!-- b -->\n<?pi x?>\n",
          # long prologs: nothing bounds what may precede the DOCTYPE (licence banners, runs of PIs, blank padding)
          "<!-- " + "licence text " * 400 + "-->\n", "<?pi " + "x" * 60 + "?>\n" * 1 + "<?note y?>\n" * 900, " " * 5000 + "\n" * 3000,
